@@ -186,6 +186,31 @@ def case_cl(ck, rng, fam, m, mir, D, mean, x0, seed, desc, nontriv):
             ck.violation("curvature-matrix-mismatch:cl:WienerFilterCurvature",
                          "WienerFilterCurvature times is not 1 + R^T N^-1 R",
                          got=vh.small(cols), expected=vh.small(Minv))
+        # a larger, worse conditioned problem of the same kind: the CG behind inverse_times needs more
+        # iterations than its residual-reset period (20), which the small generated models never reach
+        if rng.integers(0, 4) == 0:
+            nb = int(rng.integers(30, 46))
+            mb = nb             # MatrixProductOperator on a whole domain takes square matrices only
+            Rb = rng.standard_normal((mb, nb)) * np.exp(rng.uniform(-1.5, 1.5, nb))[None, :]
+            sig2 = np.exp(rng.uniform(-2.0, 0.5, mb))
+            db = rng.standard_normal(mb)
+            domb = ift.DomainTuple.make(ift.UnstructuredDomain(nb))
+            Rbop = ift.MatrixProductOperator(domb, Rb)
+            Nb = ift.DiagonalOperator(ift.makeField(Rbop.target, sig2), sampling_dtype=float)
+            jb = Rbop.adjoint_times(Nb.inverse_times(ift.makeField(Rbop.target, db)))
+            jn = float(np.linalg.norm(jb.asnumpy()))
+            icb = ift.GradientNormController(tol_abs_gradnorm=1e-8 * jn, iteration_limit=3000)
+            curvb = ift.WienerFilterCurvature(Rbop, Nb, ift.ScalingOperator(domb, 1., float), iteration_controller=icb)
+            gotb = curvb.inverse_times(jb).asnumpy()
+            Lamb = np.eye(nb) + Rb.T @ (Rb / sig2[:, None])
+            meanb = np.linalg.solve(Lamb, Rb.T @ (db / sig2))
+            if int(getattr(icb, "_itcount", 0)) > 20:
+                ck.hit("curvature_big_cg_beyond_reset")
+            # |grad| <= 1e-8 |j| at the returned point bounds the error by that (lambda_min >= 1)
+            _cmp_mean(ck, "mean-mismatch:cl:WienerFilterCurvature:long-cg",
+                      "WienerFilterCurvature.inverse_times on a 30-45 dimensional problem (CG beyond its "
+                      "residual-reset period) differs from the exact posterior mean", gotb, meanb,
+                      "curvature_mean_big", atol=1e-6 * jn)
         # curvature without sampling controller gives the same mean
         curv2 = ift.WienerFilterCurvature(Rop, Nop, Sop, iteration_controller=ic)
         got2 = vh.cl_vec(mir, curv2.inverse_times(j))
